@@ -72,7 +72,7 @@ def rule_templateset(ctx, R):
             continue
         R.analyse(b.name)
         try:
-            ts = templates_of(b, fb)
+            ts = templates_of(b, fb, closures=True)
         except Exception as e:
             R.fail("templateset:%s" % nm, "templates of compile::%s cannot be recovered: %s" % (nm, e), b.span)
             continue
@@ -185,7 +185,9 @@ def rule_area(ctx, R):
         return
     ob = meta.get("bindings", {}).get("ordering", {})
     less, equal = ob.get("Less", []), ob.get("Equal", [])
-    R.check(any(l.startswith("EQ[K0,") and l.endswith("type_]=1") for l in less) and any(l.startswith("EQ[K0,") and l.endswith("type_]=0") for l in equal), "area:ordering_binding", "the emitted arm pattern is Less for ? (type 0) and Equal for ! (type 1): %s" % ob)
+    ok_less = "EQ(Val.type_,K0)" in less
+    ok_equal = "!EQ(Val.type_,K0)" in equal or "EQ(Val.type_,K1)" in equal
+    R.check(ok_less and ok_equal, "area:ordering_binding", "the emitted arm pattern is Less for ? (type 0) and Equal for ! (type 1): %s" % ob)
     lid = meta.get("bindings", {}).get("label_id", "")
     R.check(lid.startswith("((AREACOUNT Shl K4) Add ") and lid.endswith("type_)"), "area:label_id", "the emitted label id is (count << 4) + heart type, the interpreter's formula: %s" % lid[:80])
     for v in ("v0", "v1"):
